@@ -3,10 +3,14 @@
     BEFORE any boot-sector byte (so the boot-sector flag, set first at mount, is the last mark to go).
     C11_mark_on_device: after [mark_dirty] (what a read-write mount does before anything else) the boot sector ON THE
     DEVICE parses to a header whose dirty flag is set — the mark is on the medium, not only in memory.
-    C11_bracket over arbitrary histories (every prefix of the session log is marked or complete) is NOT proved as one
-    theorem; it is checked on every prefix of the real write log, whose bytes equal the model's. *)
-From Coq Require Import ZArith List Bool.
-From PyFatV Require Import Base.Bytes Base.PyEnv Gen.Pure Model.Codec Model.Dir Model.FS Proofs.Session Proofs.Device Proofs.DirCodec Proofs.DirState Proofs.FatState Proofs.HdrState.
+    C11_ops_spare_boot_sector / C11_mark_survives: no call of the interface other than mount / close writes below byte
+    512 — for ANY history of create, makedir, remove, removedir, removetree, setinfo, openbin, write, truncate, handle
+    close, on any state with sane geometry — so the mark set at mount is still on the device when close begins; and
+    (C11_close_order) close rewrites the boot sector only after every FAT copy.  What is not proved is the statement
+    about crash points INSIDE a single operation (every prefix of its writes): that is checked on every prefix of the
+    real write log, whose bytes equal the model's. *)
+From Coq Require Import ZArith List Bool Relations.
+From PyFatV Require Import Base.Bytes Base.PyEnv Gen.Pure Model.Codec Model.Dir Model.FS Proofs.Session Proofs.Device Proofs.DirCodec Proofs.DirState Proofs.FatState Proofs.HdrState Proofs.Identity Proofs.BootSafe.
 Import ListNotations.
 Open Scope Z_scope.
 
@@ -27,6 +31,46 @@ Theorem C11_mark_on_device : forall s s',
   0 <= fat_start s -> 0 <= BPB_NumFATs (s_h s) -> fat_start s + BPB_NumFATs (s_h s) * fat_bytes s <= s_dsize s ->
   (forall v, lenZ (pack_fat (ft s) (updZ (s_fat s) 1 v) (s_hi s)) <= fat_bytes s) ->
   mark_dirty s = Ok s' ->
-  parse_hdr (rd s' 0 512) = s_h s' /\ flag_set (s_h s') = true /\ flag_set (parse_hdr (rd s' 0 512)) = true.
+  parse_hdr (rd s' 0 512) = s_h s' /\ flag_set (s_h s') = true /\ flag_set (parse_hdr (rd s' 0 512)) = true /\ dev_ok (s_dev s').
 Proof. exact mark_dirty_on_device. Qed.
 Print Assumptions C11_mark_on_device.
+
+Theorem C11_ops_spare_boot_sector : forall s s', safe s -> dev_ok (s_dev s) -> clos_refl_trans st wstep s s' ->
+  (forall a, 0 <= a < 512 -> dbyte (s_dev s') a = dbyte (s_dev s) a) /\ s_h s' = s_h s.
+Proof. exact history_keeps_boot_sector. Qed.
+Print Assumptions C11_ops_spare_boot_sector.
+Theorem C11_mark_survives : forall s s1 s2,
+  dev_ok (s_dev s) -> hdr_wf (s_h s) -> 0 <= BS_Reserved1 (s_h s) < 256 -> 512 <= s_dsize s ->
+  (ft s = Gen.FAT_TYPE_FAT32 -> 512 <= BPB_BkBootSec (s_h s) * bps s) ->
+  0 <= fat_start s -> 0 <= BPB_NumFATs (s_h s) -> fat_start s + BPB_NumFATs (s_h s) * fat_bytes s <= s_dsize s ->
+  (forall v, lenZ (pack_fat (ft s) (updZ (s_fat s) 1 v) (s_hi s)) <= fat_bytes s) ->
+  mark_dirty s = Ok s1 -> safe s1 -> 512 <= s_dsize s1 ->
+  clos_refl_trans st wstep s1 s2 ->
+  flag_set (parse_hdr (rd s2 0 512)) = true.
+Proof. exact mark_survives_history. Qed.
+Print Assumptions C11_mark_survives.
+
+(** non-vacuity: the FAT16 volume of C16's example after its dirty marking is [safe]; a makedir and a file write are
+    [wstep]s from it; the mark is on the device before and after *)
+From PyFatV Require Import Properties.C16.
+Definition ex_nameD : namerec := mkName [68] (Some [68]) (Some [68]) [68] [] true.
+Definition ex_nameF : namerec := mkName [70] (Some [70]) (Some [70]) [70] [] true.
+Definition ex11_a : st := match op_makedir ex16_s1 [ex_nameD] false (2020, 1, 1, 0, 0, 0) with Ok s => s | Err _ => ex16_s1 end.
+Definition ex11_b : st := match op_openbin ex11_a [ex_nameD; ex_nameF] (mkMode false true false true false true) (2020, 1, 1, 0, 0, 0) with Ok (s, _) => s | Err _ => ex11_a end.
+Example C11_history_example :
+  safe ex16_s1 /\ clos_refl_trans st wstep ex16_s1 ex11_b /\ ex11_b <> ex16_s1 /\
+  flag_set (parse_hdr (rd ex16_s1 0 512)) = true /\ flag_set (parse_hdr (rd ex11_b 0 512)) = true /\
+  (length (s_log ex11_b) > length (s_log ex16_s1))%nat.
+Proof.
+  assert (Hs : safe ex16_s1).
+  { unfold safe. split; [vm_compute; reflexivity|]. split; [vm_compute; reflexivity|]. split; [vm_compute; reflexivity|].
+    split; [right; left; vm_compute; reflexivity|]. repeat split; vm_compute; discriminate. }
+  split; [exact Hs|]. split.
+  - apply rt_trans with ex11_a; apply rt_step.
+    + apply (ws_makedir ex16_s1 [ex_nameD] false (2020, 1, 1, 0, 0, 0) ex11_a). vm_compute. reflexivity.
+    + assert (E : exists h, op_openbin ex11_a [ex_nameD; ex_nameF] (mkMode false true false true false true) (2020, 1, 1, 0, 0, 0) = Ok (ex11_b, h)).
+      { unfold ex11_b. destruct (op_openbin ex11_a _ _ _) as [[s h]|] eqn:E; [exists h; reflexivity|vm_compute in E; discriminate]. }
+      destruct E as (h & E). exact (ws_openbin _ _ _ _ _ _ E).
+  - split; [intro H; apply (f_equal (fun s => length (s_log s))) in H; vm_compute in H; discriminate|].
+    split; [vm_compute; reflexivity|]. split; [vm_compute; reflexivity|]. vm_compute. repeat constructor.
+Qed.
